@@ -381,7 +381,7 @@ def serialize_to_json(elements: Iterable[Any],
                 for k, v in obj.items():
                     if isinstance(k, QName):
                         k = str(k)
-                    map_items.append((k, v))
+                    map_items.append((k, v if v or not isinstance(v, list) else None))
 
                     if k not in map_keys:
                         map_keys.add(k)
